@@ -359,9 +359,8 @@ Definition enable_updatable (self : addr) (e : env) (s : state) : result (state 
 Definition quiet (r : result state) : result (state * list bmsg) :=
   do s <- r; Ok (s, []).
 
-Definition step (ct : ctype) (self : addr) (e : env) (o : op) (s : state) : result (state * list bmsg) :=
-  if negb (supports ct o) then Err
-  else match o with
+Definition exec (self : addr) (e : env) (o : op) (s : state) : result (state * list bmsg) :=
+       match o with
        | OMint id owner uri => quiet (mint e id owner uri s)
        | OTransfer to id => quiet (transfer e to id s)
        | OSend to id accepts => if accepts then quiet (transfer e to id s) else Err
@@ -380,6 +379,10 @@ Definition step (ct : ctype) (self : addr) (e : env) (o : op) (s : state) : resu
        | OFreezeTokenMd => quiet (freeze_token_metadata e s)
        | OEnableUpdatable => enable_updatable self e s
        end.
+
+(* a message the contract's ExecuteMsg does not have fails to parse *)
+Definition step (ct : ctype) (self : addr) (e : env) (o : op) (s : state) : result (state * list bmsg) :=
+  if supports ct o then exec self e o s else Err.
 
 (* instantiate: nonpayable, the sender must be a contract (ContractInfo query succeeds),
    description length, image / external link URLs, royalty share; royalty_updated_at is
